@@ -21,6 +21,13 @@ import tempfile
 import time
 
 ROOT = os.path.dirname(os.path.dirname(os.path.abspath(__file__)))
+
+
+def OUTDIR(kind):
+    """Where evidence and replay files go: /verif/evidence and /verif/replays.  A run that evaluates a seeded change on a scratch
+    copy of the repository (H5V_REPO) sets H5V_OUT so that it does not overwrite the evidence of the real tree."""
+    base = os.environ.get("H5V_OUT")
+    return os.path.join(base, kind) if base else os.path.join(ROOT, kind)
 SPEC = os.path.join(ROOT, "spec")
 GOENV = {"GOFLAGS": "-mod=mod", "GOPROXY": "off", "GOSUMDB": "off", "GOTOOLCHAIN": "local"}
 GO = "go1.26"
@@ -101,7 +108,7 @@ class Ctx:
         os.makedirs(self.files)
         self.h5v = None
         # replay files of earlier runs of this property are stale
-        rdir = os.path.join(ROOT, "replays")
+        rdir = OUTDIR("replays")
         if os.path.isdir(rdir) and not os.environ.get("H5V_KEEP_REPLAYS"):
             for f in os.listdir(rdir):
                 if f.startswith(prop + "-") and f.endswith(".json"):
@@ -463,12 +470,12 @@ def case_events(trace_path, case_ids):
 
 
 def write_replay(prop, seed, case_input, events, diag, extra=None):
-    os.makedirs(os.path.join(ROOT, "replays"), exist_ok=True)
+    os.makedirs(OUTDIR("replays"), exist_ok=True)
     body = {"property": prop, "seed": seed, "case": case_input, "diag": diag, "events": events}
     if extra:
         body.update(extra)
     h = hashlib.sha1(json.dumps([prop, case_input, diag.get("diag")], sort_keys=True).encode()).hexdigest()[:12]
-    path = os.path.join(ROOT, "replays", "%s-%s.json" % (prop, h))
+    path = os.path.join(OUTDIR("replays"), "%s-%s.json" % (prop, h))
     with open(path, "w") as f:
         json.dump(body, f, indent=1, sort_keys=True)
     return path
@@ -522,7 +529,7 @@ def report(ctx, bad, cases_by_id, trace_path, max_replays=8):
 
 
 def write_evidence(ctx, level, coverage, assumptions, violations, extra=None):
-    os.makedirs(os.path.join(ROOT, "evidence"), exist_ok=True)
+    os.makedirs(OUTDIR("evidence"), exist_ok=True)
     ev = {
         "property_id": ctx.prop,
         "tier": ctx.tier,
@@ -537,7 +544,7 @@ def write_evidence(ctx, level, coverage, assumptions, violations, extra=None):
     }
     if extra:
         ev.update(extra)
-    path = os.path.join(ROOT, "evidence", "%s.json" % ctx.prop)
+    path = os.path.join(OUTDIR("evidence"), "%s.json" % ctx.prop)
     tmp = path + ".tmp%d" % os.getpid()
     with open(tmp, "w") as f:
         json.dump(ev, f, indent=1)
